@@ -15,7 +15,8 @@ import vlib
 MERGE_RE = re.compile(r"merge of (map|array) .*(unresolved fork|could not match reference to a specific fork)", re.S)
 
 DEFAULTS = {"ev": "", "run": "", "job": "", "inst": "", "kind": "", "chunk": 0, "flag": True, "weak": False, "named": True,
-            "txt": "", "outcome": "", "jobs": [], "faults": []}
+            "txt": "", "outcome": "", "jobs": [], "faults": [],
+            "files": [], "gs": [], "xs": [], "ts": [], "ls": [], "nums": [], "facts": []}
 
 
 def rec(**kw):
@@ -35,14 +36,25 @@ def expected_jobs(sem):
         weak = sorted({d.lstrip("~") for d in i["deps"] if d.startswith("~")} - set(strong))
         jobs.append({"key": key, "inst": i["inst"], "kind": i["kind"], "chunk": i["chunk"],
                      "deps": strong, "wdeps": weak, "last": last, "split": i["inst"] in split_insts,
-                     "ghost": bool(i.get("ghost"))})
+                     "ghost": bool(i.get("ghost")), "vol": bool(i.get("vol")), "svol": i.get("svol") or ""})
     return jobs
+
+
+def file_key(f):
+    return "%s|%d|%s" % (f["p"], f["c"], f["n"])
+
+
+def file_facts(sem):
+    return [{"key": file_key(f["f"]), "users": f["users"], "top": f["top"], "retained": f["retained"],
+             "vol": f["vol"], "svol": f["svol"], "chunk": f["f"]["c"] >= 0, "writer": f["writer"]}
+            for f in sem.get("files") or []]
 
 
 def monitor_records(spec, sem, result):
     faults = spec.get("faults") or {}
     out = [rec(ev="RunBegin", run=spec["name"], jobs=expected_jobs(sem), weak=bool(sem.get("weak")),
-               faults=[{"key": k, "fault": v} for k, v in faults.items()])]
+               faults=[{"key": k, "fault": v} for k, v in faults.items()],
+               facts=file_facts(sem) if spec.get("files") else [], txt=spec.get("vdr") or "")]
     fault_calls = ["ID.ps." + k.split("[")[0] for k in faults]
     ends = [e for e in result["trace"] if e["ev"] == "RunEnd"]
     for e in result["trace"]:
@@ -52,8 +64,16 @@ def monitor_records(spec, sem, result):
                 for a in result.get("args_bad") or []:
                     if a.startswith(e["job"] + ":"):
                         txt = a[:300]
-            out.append(rec(ev="StageBegin", job=e["job"], flag=bool(e["argsOk"]), txt=txt,
+            out.append(rec(ev="StageBegin", job=e["job"], flag=bool(e["argsOk"]), txt=txt, files=e.get("missing") or [],
                            kind="placeholder" if "?" in e["job"].split("/")[0].rsplit("[", 1)[-1] else ""))
+        elif e["ev"] == "VdrRemove":
+            out.append(rec(ev="VdrRemove", files=e.get("files") or [], flag=not e.get("outside"),
+                           txt="%s, %s of %s" % (e.get("path"), e.get("why"), e.get("fork"))))
+        elif e["ev"] == "VdrFinal":
+            out.append(rec(ev="VdrFinal", files=e.get("present") or [], gs=(e.get("gone") or []) + (e.get("damaged") or []),
+                           xs=e.get("extras") or [], ts=e.get("tmps") or [], ls=e.get("listed_exists") or [],
+                           nums=[e["report_count"], e["report_size"], e["removed_files"], e["removed_file_bytes"],
+                                 e["removed_entries"], e["removed_bytes"]]))
         elif e["ev"] == "StageEnd":
             out.append(rec(ev="StageEnd", job=e["job"], outcome=e["outcome"]))
         elif e["ev"] == "JobSubmitted":
